@@ -67,8 +67,8 @@ def copOf : PyThrow → COp
 /-- where `_athrow` is suspended: in the `type is not None` branch or in the other -/
 def mkP (t : PyThrow) (y : YV) : GoiAthrowPSusp :=
   match t with
-  | .none3 => .p1 (.p0 (.p0 y))
-  | .args _ => .p0 (.p0 (.p0 y))
+  | .none3 => .p0 (.p0 (.p0 y))
+  | .args _ => .p1 (.p0 (.p0 y))
 
 macro "goi_bash" : tactic => `(tactic| (
   first
@@ -293,8 +293,8 @@ theorem anextResume_eq (ub : UB) (cfg : HookCfg)  (y0 : YV) (r : Resume) (hr : r
 
 theorem athrowResume_eq (ub : UB) (cfg : HookCfg) (x : Exc) (y0 : YV) (r : Resume) (hr : r ≠ .throw .genExit) (g : Goi ub)
     (hs : HookSt) (evs : List HookEv) (hrun : g.running = true) :
-    goiAthrowResume ub cfg (.args x) (.p0 (.p0 (.p0 (.p0 y0)))) r (stOf g hs evs) =
-      ofGoi (fun y => GoiAthrowSusp.p0 (.p0 (.p0 (.p0 y)))) hs evs (goiResume ub (.athrow x) r g) := by
+    goiAthrowResume ub cfg (.args x) (.p0 (.p1 (.p0 (.p0 y0)))) r (stOf g hs evs) =
+      ofGoi (fun y => GoiAthrowSusp.p0 (.p1 (.p0 (.p0 y)))) hs evs (goiResume ub (.athrow x) r g) := by
   unfold goiAthrowResume
   have e := athrowPResume_eq ub cfg (.args x) y0 r g hs evs hrun
   simp only [stOf, copOf, mkP] at e ⊢
@@ -320,8 +320,8 @@ theorem athrowResume_eq (ub : UB) (cfg : HookCfg) (x : Exc) (y0 : YV) (r : Resum
 
 theorem acloseResume_eq (ub : UB) (cfg : HookCfg)  (y0 : YV) (r : Resume) (hr : r ≠ .throw .genExit) (g : Goi ub)
     (hs : HookSt) (evs : List HookEv) (hrun : g.running = true) :
-    goiAcloseResume ub cfg  (.p0 (.p1 (.p0 (.p0 y0)))) r (stOf g hs evs) =
-      ofGoi (fun y => GoiAcloseSusp.p0 (.p1 (.p0 (.p0 y)))) hs evs (goiResume ub .aclose r g) := by
+    goiAcloseResume ub cfg  (.p0 (.p0 (.p0 (.p0 y0)))) r (stOf g hs evs) =
+      ofGoi (fun y => GoiAcloseSusp.p0 (.p0 (.p0 (.p0 y)))) hs evs (goiResume ub .aclose r g) := by
   unfold goiAcloseResume
   have e := athrowPResume_eq ub cfg .none3 y0 r g hs evs hrun
   simp only [stOf, copOf, mkP] at e ⊢
